@@ -11,7 +11,7 @@ from common import Driver, DriverFailure, hx
 LEVEL = "proof"
 MANIFEST = dict(
     text="Lean 4 theorems for every item satisfying the decidable Item.WF (all shipped items except the 3 of finding D9, by C18's whole-table evaluation), every 1024-byte block and every domain value: write-then-read returns the value (read_after_write + per-kind corollaries), only bits of the item's own field change (write_touches_only_own_field), items with a disjoint field keep their value (other_items_unchanged), read-only items refuse, string forms, and the blocking/awaitable paths emit identical writes. The shift/mask/merge arithmetic is translated from accessor.py on every run; type dispatch / labels / time format are a hand model tied by a differential correspondence on the real accessors (thorough: all 20 505 items)."
-         ' Since session 3: adversarial prior contents for bit fields (the whole field equals the integer about to be merged in, and its complement) and a no-write oracle. Session 4: every stored word of a window (0..1099 plus a seeded sample of the rest) of the writable temperature items of two shipped pairs is presented in both units and written back through the blocking and the awaitable path: the device write must carry that word. Items whose labels are unusual as text (blank, padded, case twins, numeric-looking) are always chosen; an error on an in-domain write to a writable item is a violation. Session 5: write_paths_are_the_same_code (the awaitable write methods of an item and of the structure, with their one await turned into a call, ARE the blocking ones, as skeletons regenerated from the source), write_paths_keep_no_state, every_write_is_handed_over; histories of writes on one long-lived structure whose hand-off fails or is cancelled, then the same write again (twice), two under way together: every call emits the blocking path\'s write. blocking_write_refines_awaitable / blocking_temperature_write_refines_awaitable: every trace of the blocking write is the image of a trace of the awaitable one (twin_refines, rassoc_equiv in Proofs/CoopEquiv.lean). Round 14: the same writes through the real client path (c13.pending_report_scenarios: two writes behind a slow exchange, a change of mind before the spa\'s report).',
+         ' Since session 3: adversarial prior contents for bit fields (the whole field equals the integer about to be merged in, and its complement) and a no-write oracle. Session 4: every stored word of a window (0..1099 plus a seeded sample of the rest) of the writable temperature items of two shipped pairs is presented in both units and written back through the blocking and the awaitable path: the device write must carry that word. Items whose labels are unusual as text (blank, padded, case twins, numeric-looking) are always chosen; an error on an in-domain write to a writable item is a violation. Session 5: write_paths_are_the_same_code (the awaitable write methods of an item and of the structure, with their one await turned into a call, ARE the blocking ones, as skeletons regenerated from the source), write_paths_keep_no_state, every_write_is_handed_over; histories of writes on one long-lived structure whose hand-off fails or is cancelled, then the same write again (twice), two under way together: every call emits the blocking path\'s write. blocking_write_refines_awaitable / blocking_temperature_write_refines_awaitable: every trace of the blocking write is the image of a trace of the awaitable one (twin_refines, rassoc_equiv in Proofs/CoopEquiv.lean). Round 14: the same writes through the real client path (c13.pending_report_scenarios: two writes behind a slow exchange, a change of mind before the spa\'s report). Round 15: two BLOCKING clients per process (real start_connect hand-shakes stepped without threads, harness/bsessions.py), sequential and with overlapping start-up; a write through one client\'s item reaches its own spa only.',
     note="Trusted: Lean kernel; translator for the three arithmetic expressions; the correspondence harness; 'applied to the block' = the spa stores struct.pack of the value at pos (as the bundled simulator does). Temperature items' unit conversion is C14.",
     technique='Lean 4 bit-level proofs (Nat.testBit) over source-translated merge arithmetic + differential correspondence of the hand model on all shipped items',
     design='5/C02',
@@ -220,6 +220,23 @@ def replay_write_history(inp):
             want = ref + ref
         got = list(h.acaptured)
     return got != want, {"emitted": got, "blocking path": want}
+
+
+def blocking_clients(ctx, only=None):
+    import bsessions
+    from common import REPO
+    s1 = str(REPO / "tests" / "snapshots" / "inYT-Pump1Hi-2020-12-13 11_19_35.snapshot")
+    s2 = str(REPO / "tests" / "snapshots" / "inYT-Pump2Hi-2020-12-13 11_19_35.snapshot")
+    for overlapping in (False, True):
+        if only is not None and only != overlapping:
+            continue
+        res, _a, _b = bsessions.two_clients(s1, s2, overlapping)
+        ctx.count("evaluations")
+        ctx.hist("blocking_clients", "overlapping" if overlapping else "sequential")
+        for what, detail in bsessions.judge(res):
+            ctx.violation(f"blocking-clients:{'overlapping' if overlapping else 'sequential'}:{what}", {"kind": "blocking-clients", "overlapping": overlapping},
+                          "each client's items read its own block (tables its spa reported) and a write reaches its own spa only", detail)
+            break
 
 
 def canon_err(e):
@@ -579,6 +596,12 @@ def run(ctx):
         c13.pending_report_scenarios(ctx, str(_REPO / "tests" / "snapshots" / "inYT-Pump1Hi-2020-12-13 11_19_35.snapshot"), "real-path", with_shared_word=False)
     except Exception as e:  # noqa
         ctx.violation(f"real-path:raised:{type(e).__name__}", {"kind": "pending-report", "snapshot": "inYT-Pump1Hi-2020-12-13 11_19_35.snapshot"}, "the scenario runs", f"{type(e).__name__}: {e}")
+    # ---------- two BLOCKING clients in one process (real start_connect handshakes, stepped): one after the other, and with overlapping
+    #            start-up - every item reads its own client's block and a write reaches its own client's spa
+    try:
+        blocking_clients(ctx)
+    except Exception as e:  # noqa
+        ctx.obligation_broken("harness:blocking-clients", f"{type(e).__name__}: {e}")
     # ---------- correspondence: the Lean model must predict every answer ----------
     try:
         model = Driver("Driver/C02.lean").run(lines)
@@ -612,6 +635,11 @@ def run(ctx):
 
 
 def replay(inp):
+    if inp.get("kind") == "blocking-clients":
+        from common import Ctx
+        c = Ctx("C02", "quick", 0)
+        blocking_clients(c, only=inp["overlapping"])
+        return bool(c.violations), c.violations[0]["observed"] if c.violations else "both clients read and write their own spa"
     if inp.get("kind") == "pending-report":
         from props import c13
         from common import Ctx, REPO as _REPO
